@@ -26,6 +26,7 @@ def run(ctx):
     ctx.each(r10d, ctx, repo)
     ctx.each(r10e, ctx, repo)
     ctx.each(flowalg.process_prologue, ctx, repo, "R10f")
+    ctx.each(r10g, ctx, repo)
 
 
 def _r07b_as(ctx, repo):
@@ -223,3 +224,33 @@ def r10e(ctx, repo):
                     ctx.check(any(s_ is x for x in ast.walk(guards[0])), "R10e", fi, s_, "destination written only under the guard", "`%s` writes a destination outside the guard" % norm(s_)[:60])
             n += 1
     ctx.require(n >= 2, "R10e: fewer initial_flush implementations (%d) than confirmed (2)" % n)
+
+
+def r10g(ctx, repo):
+    ctx.rule("R10g", "the saved state survives the spreadsheet: Initialization.to_excel writes the frame whose index is the (compartment, population) key of every saved value with merge_cells=False - with pandas' default (merge_cells=True) vertically adjacent rows that share a compartment name are merged into one cell, from_excel reads the merged cells back as a missing key, and apply() restarts those compartments empty (whatever order the rows are written in)")
+    fi = repo.func("parameters", "Initialization.to_excel")
+    me = fi.params[0]
+    # dicts filled under the keys of self.values
+    keyed = set()
+    for lp in own_nodes(fi.node):
+        if isinstance(lp, ast.For) and ast.unparse(lp.iter).startswith("%s.values" % me):
+            for st in ast.walk(lp):
+                if isinstance(st, ast.Assign) and isinstance(st.targets[0], ast.Subscript) and isinstance(st.targets[0].value, ast.Name):
+                    keyed.add(st.targets[0].value.id)
+    ctx.require(keyed, "R10g: the dict filled from self.values was not found in Initialization.to_excel")
+    frames = set()
+    changed = True
+    while changed:
+        changed = False
+        for st in own_nodes(fi.node):
+            if isinstance(st, ast.Assign) and len(st.targets) == 1 and isinstance(st.targets[0], ast.Name) and st.targets[0].id not in frames:
+                used = {x.id for x in ast.walk(st.value) if isinstance(x, ast.Name)}
+                if used & (keyed | frames) and "DataFrame" in ast.unparse(st.value) or used & frames:
+                    frames.add(st.targets[0].id)
+                    changed = True
+    calls = [c for c in ast.walk(fi.node) if isinstance(c, ast.Call) and isinstance(c.func, ast.Attribute) and c.func.attr == "to_excel" and ({x.id for x in ast.walk(c.func.value) if isinstance(x, ast.Name)} & (frames | keyed))]
+    ctx.require(calls, "R10g: the to_excel call that writes the saved values was not found")
+    for c in calls:
+        mc = astq.kwarg(c, "merge_cells")
+        ok = isinstance(mc, ast.Constant) and mc.value is False
+        ctx.check(ok, "R10g", fi, enclosing_stmt(c), "the (compartment, population) index is written unmerged", "`%s` writes the (compartment, population) index with merged cells: rows that share a compartment name with the row above are read back with a missing key and their compartments restart empty" % norm(enclosing_stmt(c))[:90], stmt_text="to_excel-values")
